@@ -163,11 +163,13 @@ def check_tee(w, length, with_lock, sus, final):
     if w.source.closed > 1:
         bad.append(f"source closed {w.source.closed} times")
     if final:
-        gc.collect()
         if all(d is not None for d in w.done):
             if w.source.closed != 1:
                 bad.append(f"every child is done but the source was closed {w.source.closed} times")
             alive = [k for k, r in enumerate(w.refs) if r() is not None and k < w.source.i]
+            if alive:
+                gc.collect()        # only reference cycles can keep an item alive past its last reference
+                alive = [k for k, r in enumerate(w.refs) if r() is not None and k < w.source.i]
             if alive:
                 bad.append(f"items {alive} are still referenced after every child is done")
     elif yielded_by_all_live is not None:
@@ -269,7 +271,7 @@ def tee(tier="quick", procs=None):
     import os
     out = {"schedules": 0, "scenarios": 0, "violations": [], "truncated": 0}
     lengths = (0, 1, 2) if tier == "quick" else (0, 1, 2, 3)
-    limit = 1500 if tier == "quick" else 20000
+    limit = 5000 if tier == "quick" else 20000
     work = []
     for n in ((2,) if tier == "quick" else (2, 3)):
         for length in lengths:
@@ -278,6 +280,8 @@ def tee(tier="quick", procs=None):
                     if not with_lock and sus > 0:
                         continue        # the property promises nothing for a suspending source without a lock
                     closes = [None] + list(range(0, length + 1))
+                    if n == 3 and length > 2:
+                        continue
                     for close_after in itertools.product(closes, repeat=n):
                         if n == 3 and sum(c is not None for c in close_after) > 1:
                             continue
@@ -293,7 +297,7 @@ def tee(tier="quick", procs=None):
                 out["violations"].append(viol)
     out["violations"].sort(key=lambda v: (len(v["schedule"]), json.dumps(v["scenario"])))
     out["violations"] = out["violations"][:5]
-    out["bound"] = (f"children {2 if tier == 'quick' else '2..3'}, source lengths {list(lengths)}, source suspends 0..1 times per item, with/without lock "
+    out["bound"] = (f"children {2 if tier == 'quick' else '2..3 (3 children: lengths 0..2)'}, source lengths {list(lengths)}, source suspends 0..1 times per item, with/without lock "
                     f"(a suspending source only with lock), each child closed after j items or never (n=3: at most one closing child), at most one cancellation at any "
                     f"suspension point; all schedules depth first, at most {limit} per scenario ({out['truncated']} scenarios truncated)")
     return out
@@ -405,7 +409,7 @@ def _lru_one(args):
 
 
 def lru(tier="quick"):
-    limit = 5000 if tier == "quick" else 50000
+    limit = 5000 if tier == "quick" else 20000
     work = []
     planset = [((0,), (0,)), ((0,), (1,)), ((0, 1), (1, 0)), ((0, 0), (0,)), ((0, 1), (2,))]
     if tier != "quick":
@@ -582,7 +586,7 @@ def _cp_one(args):
 
 
 def cached_property(tier="quick"):
-    limit = 5000 if tier == "quick" else 50000
+    limit = 5000 if tier == "quick" else 20000
     work = []
     for with_lock in (False, True):
         for n_await in ((2, 3) if tier == "quick" else (2, 3, 4)):
@@ -694,7 +698,7 @@ def _deco_one(args):
 
 
 def decorator(tier="quick"):
-    limit = 5000 if tier == "quick" else 50000
+    limit = 5000 if tier == "quick" else 20000
     work = [(kind, n, body, rec, cancel, limit, sup) for kind in ("generator", "class") for n in (1, 2, 3) for body in ("return", "raise")
             for rec in (False, True) for cancel in (False, True) for sup in (False, True) if not (rec and n == 3) and not (sup and body == "return")]
     return _run_pool(_deco_one, work, f"1..3 concurrent calls of a decorated coroutine function (generator-based and class-based manager) with suspension points in enter, "
